@@ -113,6 +113,20 @@ check('C14', 'color',
       'Trusted: TLC, harness/sgr.py. One description per id; reference chains acyclic.',
       'DESIGN.md section 4, C14')
 
+ENGINES['sql'] = ('specs/sql', ['C15'], 'SqlFilter.tla (three-valued evaluation over a fixed table, bind order, condition '
+                  'builder); driver harness/drivers/c15.py (real sqlite3, recorded cursor.execute)')
+check('C15', 'sql',
+      'TLA+ spec of SQL three-valued filter semantics and of the bind list; TLC-enumerated condition lists executed '
+      'through SqlMethod on a real sqlite3 connection, returned rows / recorded SQL text / bound values compared',
+      'Every single condition of the family (comparisons x all pool values incl. NULL, quotes and wildcards; IN/NOT IN '
+      'with empty, singleton and NULL-containing lists as list/tuple/set; NULL tests; LIKE/NOT LIKE; keyword filters; '
+      'OR groups incl. empty; ignored None) is evaluated by the spec on a 49-row table of all value pairs and executed '
+      'in three API spellings; lists of up to 3 conditions by TLC simulation (quick) and all pairs exhaustively '
+      '(thorough).  Checked: rows and order, list/all/one/one_or_none, no value in the SQL text, one placeholder per '
+      'bound value in spec order, identical SQL for identical shapes.',
+      'Trusted: TLC, sqlite3 as the SQL engine (columns without affinity), value pool as in the evidence assumptions.',
+      'DESIGN.md section 4, C15')
+
 ALL = ['C%02d' % i for i in range(1, 21)]
 
 
